@@ -143,7 +143,12 @@ class W:
 
 
 class Ref:
-    def __init__(self, prog):
+    def __init__(self, prog, relock_by_owner_succeeds=False):
+        """relock_by_owner_succeeds=True is NOT the reference: it is a *diagnosis* variant reproducing one known defect of
+        the native (non-MC) path - MutexAcquisitionImpl::wait_for() tests the ownership instead of the acquisition, so the
+        owner of a non-recursive mutex that locks it again is not blocked, and its queued acquisition is granted to itself
+        by its next unlock.  C14 uses it only to give that defect its own violation key."""
+        self.relock_ok = relock_by_owner_succeeds
         self.p = prog
         self.ops = [ops for _, ops in prog.actors]
         self.n = len(prog.actors)
@@ -290,6 +295,8 @@ class Ref:
         t, _ = self.pending(s, a)
         ty = t[0]
         if ty == "MUTEX_WAIT":
+            if self.relock_ok:
+                return s[1][t[1]][0] == a
             return a not in s[1][t[1]][1] and s[1][t[1]][0] == a
         if ty == "SEM_WAIT":
             return a in s[2][t[1]][2]
@@ -350,7 +357,7 @@ class Ref:
                     A[A_PH] = 1
                     nxt = False
                 else:
-                    A[A_HM] = tuple(sorted(A[A_HM] + (x,)))
+                    A[A_HM] = tuple(sorted(set(A[A_HM]) | {x}))
                     A[A_PH] = 0
             elif k == "U":
                 A[A_HM] = tuple(m for m in A[A_HM] if m != x)
